@@ -191,6 +191,17 @@ def run(S):
         S.inconclusive.append('reorder_import_items is read outside convert_import_items: %r (the claim that nothing else depends on it no longer follows)' % extra)
     S.validation['readers_of_reorder_import_items'] = readers
 
+    # ---- "sorted" means one order of the printed items: it must not depend on blanks that printing normalises ------------
+    sp_found = explore_spacing(S, 2 if S.tier == 'quick' else 3)
+    for info in [i for l, i in sp_found][:8]:
+        w = confirm_spacing(S, info)
+        if w:
+            S.violation('import-order-depends-on-source-spacing', 'import reordering: the printed items are not in one sorted order: %s' % w['what'], dict(api=w, model=info))
+            break
+    else:
+        if sp_found:
+            S.inconclusive.append('import: no solver model for `order-depends-on-source-spacing` reproduced natively (%r)' % (sp_found[0][1],))
+
     # ---- replay ---------------------------------------------------------------------------------------------------
     seen = set()
     for lab, info in found:
@@ -289,7 +300,11 @@ def native_confirm(S, lab, info):
 
 def explore_spacing(S, K):
     """C03 mechanism: with reordering on, the order chosen must not depend on the source's spacing inside items,
-    otherwise the formatted text (normalised spacing) is sorted differently by a second pass."""
+    otherwise the formatted text (normalised spacing) is sorted differently by a second pass.
+    Source spacing: every blank inside an item is an arbitrary White_Space scalar (tab, NBSP, line break, ...), formatted
+    spacing is what the printer emits (one space around `as`, none around dots). Leading identifiers have one or two
+    characters, the second from [-_0-9a-z] so that it can sort on either side of a blank."""
+    from mirsym.models_std import is_ws
     kt = T.KT
     core = S.core
     fn = S.find_fn(core, 'PrettyPrinter::convert_import_items')
@@ -302,31 +317,45 @@ def explore_spacing(S, K):
         ctx.assume(z3.And(z3.UGE(c, ord('a')), z3.ULE(c, ord('c'))))
         return c
 
-    def build(chars, shape, wide):
-        """item node from identifier characters; `wide`: source spacing (two blanks / blanks around dots) vs formatted spacing"""
-        sp = Str.lit('  ') if wide else Str.lit(' ')
+    def cont(ctx, name):
+        c = z3.BitVec(name, 32)
+        ctx.assume(z3.Or(c == ord('-'), c == ord('_'), z3.And(z3.UGE(c, ord('0')), z3.ULE(c, ord('9'))), z3.And(z3.UGE(c, ord('a')), z3.ULE(c, ord('z')))))
+        return c
+
+    def blank(ctx, name):
+        c = z3.BitVec(name, 32)
+        ctx.assume(is_ws(c))
+        return c
+
+    def build(chars, shape, wide, long, ws):
+        """item node from identifier characters; `wide`: source spacing vs formatted spacing"""
+        head = Str((chars[0], chars[2])) if long else Str((chars[0],))
         if shape == 'path1':
-            return Node(K_PATH, children=[Node(K_ID, text=Str((chars[0],)))])
+            return Node(K_PATH, children=[Node(K_ID, text=head)])
         if shape == 'path2':
-            kids = [Node(K_ID, text=Str((chars[0],)))]
+            kids = [Node(K_ID, text=head)]
             if wide:
-                kids.append(Node(kt.k('Space'), text=Str.lit(' ')))
+                kids.append(Node(kt.k('Space'), text=Str((ws[0],))))
             kids.append(Node(kt.k('Dot'), text=Str.lit('.')))
             if wide:
-                kids.append(Node(kt.k('Space'), text=Str.lit(' ')))
+                kids.append(Node(kt.k('Space'), text=Str((ws[1],))))
             kids.append(Node(K_ID, text=Str((chars[1],))))
             return Node(K_PATH, children=kids)
-        p = Node(K_PATH, children=[Node(K_ID, text=Str((chars[0],)))])
-        return Node(K_REN, children=[p, Node(kt.k('Space'), text=sp), Node(kt.k('As'), text=Str.lit('as')), Node(kt.k('Space'), text=sp), Node(K_ID, text=Str((chars[1],)))])
+        p = Node(K_PATH, children=[Node(K_ID, text=head)])
+        sp1 = Str((ws[0],)) if wide else Str.lit(' ')
+        sp2 = Str((ws[1],)) if wide else Str.lit(' ')
+        return Node(K_REN, children=[p, Node(kt.k('Space'), text=sp1), Node(kt.k('As'), text=Str.lit('as')), Node(kt.k('Space'), text=sp2), Node(K_ID, text=Str((chars[1],)))])
 
     for k in range(2, K + 1):
         for shapes in itertools.product(('path1', 'path2', 'renamed'), repeat=k):
             if all(s == 'path1' for s in shapes):
                 continue
             def body(ctx, shapes=shapes):
-                chars = [(ident(ctx, 'n%d_a' % i), ident(ctx, 'n%d_b' % i)) for i in range(len(shapes))]
-                # each item independently has source spacing or formatted spacing in the first pass
+                chars = [(ident(ctx, 'n%d_a' % i), ident(ctx, 'n%d_b' % i), cont(ctx, 'n%d_c' % i)) for i in range(len(shapes))]
+                blanks = [(blank(ctx, 'ws%d_0' % i), blank(ctx, 'ws%d_1' % i)) for i in range(len(shapes))]
+                # each item independently has source spacing or formatted spacing in the first pass, and a short or long head
                 wides = [ctx.branch(z3.Bool('wide%d' % i)) if shapes[i] != 'path1' else False for i in range(len(shapes))]
+                longs = [ctx.branch(z3.Bool('long%d' % i)) for i in range(len(shapes))]
                 orders = []
                 for first_pass in (True, False):
                     rec = {}
@@ -336,7 +365,7 @@ def explore_spacing(S, K):
                         return Opaque('stylist', ())
                     m = S.machine(core, STD, ctx, overrides={'process_iterable_impl': process, 'print_doc': (lambda mm, a, ci: D.opaque_doc('x')),
                                                               "ListStylist::<'_>::new": (lambda mm, a, ci: Opaque('stylist0', ()))})
-                    nodes = [build(chars[i], shapes[i], wides[i] and first_pass) for i in range(len(shapes))]
+                    nodes = [build(chars[i], shapes[i], wides[i] and first_pass, longs[i], blanks[i]) for i in range(len(shapes))]
                     pr, cfg = pp.printer(m, cfg=Agg('Config', None, (2, 80, 2, True), pp.CFG_NAMES))
                     m.call_fn(fn, [pr, pp.context(), Vec(nodes)])
                     S.absorb(m)
@@ -344,7 +373,9 @@ def explore_spacing(S, K):
                     orders.append([nodes.index(n) for n in seq])
 
                 def describe(mdl):
-                    return dict(shapes=list(shapes), wide=list(wides), names=[(chr(model_int(mdl, a)), chr(model_int(mdl, b))) for a, b in chars],
+                    return dict(shapes=list(shapes), wide=list(wides), long=list(longs),
+                                names=[(chr(model_int(mdl, a)), chr(model_int(mdl, b)), chr(model_int(mdl, c))) for a, b, c in chars],
+                                blanks=[(model_int(mdl, x), model_int(mdl, y)) for x, y in blanks],
                                 order_source_spacing=orders[0], order_formatted_spacing=orders[1])
                 ctx.must_hold(orders[0] == orders[1], 'C03:import-order-depends-on-source-spacing', describe)
                 if orders[0] != list(range(len(shapes))):
@@ -357,22 +388,30 @@ def explore_spacing(S, K):
 
 
 def confirm_spacing(S, info):
-    items_wide = []
-    for shape, (a, b), wide in zip(info['shapes'], info['names'], info.get('wide') or [True] * len(info['shapes'])):
+    n = len(info['shapes'])
+    items = []
+    wides = info.get('wide') or [True] * n
+    longs = info.get('long') or [False] * n
+    blanks = info.get('blanks') or [(0x20, 0x20)] * n
+    for shape, nm, wide, long, ws in zip(info['shapes'], info['names'], wides, longs, blanks):
+        a, b = nm[0], nm[1]
+        head = a + (nm[2] if long and len(nm) > 2 else '')
+        w0, w1 = (chr(ws[0]), chr(ws[1])) if wide else ('', '')
         if shape == 'path1':
-            items_wide.append(a)
+            items.append(head)
         elif shape == 'path2':
-            items_wide.append(('%s . %s' if wide else '%s.%s') % (a, b))
+            items.append('%s%s.%s%s' % (head, w0, w1, b))
         else:
-            items_wide.append(('%s  as  %s' if wide else '%s as %s') % (a, b))
-    src = '#import "m.typ": ' + ', '.join(items_wide) + '\n'
-    if S.driver.call('erroneous', hexs(src))[1] == '1':
-        return None
-    a = S.driver.call('format', hexs(src), 80, 2, 1)
-    if a[0] != 'ok':
-        return None
-    b = S.driver.call('format', a[1], 80, 2, 1)
-    if b[0] != 'ok' or b[1] != a[1]:
-        return dict(api='format(format(x)) with reorder_import_items', source=src, first=unhexs(a[1]), second=unhexs(b[1]) if b[0] == 'ok' else b[0],
-                    what='with import reordering on, %s formats to %s and a second pass gives %s' % (show(src), show(unhexs(a[1])), show(unhexs(b[1]) if b[0] == 'ok' else b[0])))
+            items.append('%s%sas%s%s' % (head, w0 or ' ', w1 or ' ', b))
+    # items in parentheses: blanks may be line breaks there
+    for src in ('#import "m.typ": ' + ', '.join(items) + '\n', '#import "m.typ": (' + ', '.join(items) + ')\n'):
+        if S.driver.call('erroneous', hexs(src))[1] == '1':
+            continue
+        a = S.driver.call('format', hexs(src), 80, 2, 1)
+        if a[0] != 'ok':
+            continue
+        b = S.driver.call('format', a[1], 80, 2, 1)
+        if b[0] != 'ok' or b[1] != a[1]:
+            return dict(api='format(format(x)) with reorder_import_items', source=src, first=unhexs(a[1]), second=unhexs(b[1]) if b[0] == 'ok' else b[0],
+                        what='with import reordering on, %s formats to %s and a second pass gives %s' % (show(src), show(unhexs(a[1])), show(unhexs(b[1]) if b[0] == 'ok' else b[0])))
     return None
